@@ -123,6 +123,7 @@ def build(repo, spec_dir, canary=False):
     blocks = [tuple(bk) + (SUB,) for bk in blocks]
     def pre(text, log, where):
         return D.ndarray_index(text, arrays, log, where)
+    b._parts = dict(req=req, post=post, loops={1: l1, 2: l2, 3: l3, 4: l4}, blocks=blocks, arrays=arrays)
     b.slice_fn('eliminate', "    pub fn eliminate(mut a: Array2<Option<Expression<'a>>>, mut b: Array1<Option<Expression<'a>>>, state_count: usize, config: &'a RegExpConfig) -> (r: Expression<'a>)",
                '        ' + body, 'expression.rs::Expression::from statements from `for n in (0..state_count).rev()` to the end of the function',
                requires=req, clauses=[Clause('elim.result_is_initial_right_language', post, ['C01', 'C02', 'C16'])], props=['C07'], loops={1: l1, 2: l2, 3: l3, 4: l4}, blocks=blocks, pre=pre)
@@ -258,6 +259,7 @@ def build_matrix(repo, spec_dir, canary=False):
     def pre(text, log, where):
         text = D.desugar_enumerate(text, log, where)
         return D.ndarray_index(text, ['a', 'b'], log, where)
+    b._parts = dict(loops={1: l1, 2: l2}, blocks=blocks)
     b.slice_fn('build_system', "    pub fn build_system(dfa: Dfa, config: &'a RegExpConfig) -> (r: (Array2<Option<Expression<'a>>>, Array1<Option<Expression<'a>>>, usize))",
                '        ' + body, 'expression.rs::Expression::from statements from `let states = ..` up to the elimination loop', epilogue='        (a, b, state_count)',
                clauses=[Clause('matrix.encodes_automaton', 'wf_dims(r.0@, r.1@, r.2 as int) && r.2 == d_states(dfa).len() && encodes(r.0@, r.1@, dfa, r.2 as int)', ['C01', 'C02', 'C16'])],
@@ -270,4 +272,71 @@ def build_matrix(repo, spec_dir, canary=False):
     b.emit(E.OUTSIDE)
     b.trusted += ['the automaton is opaque (uninterpreted d_states / d_final / d_out): states_in_depth_first_order returns the duplicate-free DFS order closed under edges; state_count equals its length (every state reachable: true for Dfa::from); outgoing_edges lists exactly the out-edges (parallel edges allowed: their labels are unioned)',
                   'ndarray stand-in incl. ::default (all None); Iterator::position; R22 enumerate desugaring']
+    return b
+
+
+# ---------------------------------------------------------------------------------------------------------------------------------------
+def build_whole(repo, spec_dir, canary=False):
+    """unit `exprfrom`: Expression::from as ONE function -- the statements that build the matrices, then the elimination loop, then the result.
+    The invariants and proof steps are the ones of units `matrix` and `elim` (taken from their builders, loop ordinals shifted by the two loops of the
+    first part); between the two parts the proved lemma `lemma_encoded_system` turns "the matrices encode the automaton" into the precondition of
+    the elimination.  What units matrix/elim assume about each other ("adjacent statement ranges compose") is thereby discharged."""
+    import re
+    bm = build_matrix(repo, spec_dir, canary=False)       # assembles the matrix unit (no Verus run): its prelude is the one needed here
+    be = build(repo, spec_dir, canary=False)
+    pm, pe = bm._parts, be._parts
+    b = Builder('exprfrom', repo, canary)
+    # prelude: the text of unit matrix up to its `mod code {`, plus the assumed functions of both units
+    b.emit('#![feature(allocator_api)]\nuse vstd::prelude::*;\nuse vstd::std_specs::cmp::*;\nuse std::collections::BTreeSet;\nverus! {')
+    for f, h in [('config.rs', r'^pub struct RegExpConfig \{'), ('quantifier.rs', r'^pub enum Quantifier \{'), ('substring.rs', r'^pub enum Substring \{'),
+                 ('grapheme.rs', r'^pub struct Grapheme \{'), ('cluster.rs', r"^pub struct GraphemeCluster<'a> \{"), ('expression.rs', r"^pub enum Expression<'a> \{")]:
+        b.type_item(f, h)
+    b.emit(open(spec_dir + '/petgraph_standin.rs').read())
+    b.emit('pub type State = pg::NodeIndex<u32>;')
+    b.emit('pub mod spec {\nuse super::*;')
+    b.emit(open(spec_dir + '/lang.rs').read()); b.emit(open(spec_dir + '/elim.rs').read()); b.emit(open(spec_dir + '/matrix.rs').read())
+    b.emit('}')
+    b.emit(NDARRAY)
+    b.emit('use spec::*;')
+    b.emit(MATRIX_STANDINS)
+    b.emit('mod code {\nuse super::*;\nuse super::spec::*;')
+    b.emit("impl<'a> GraphemeCluster<'a> {")
+    GC = "^impl<'a> GraphemeCluster<'a> \\{"
+    b.assumed_fn('cluster.rs', 'from', within=GC, ensures=['s@.len() == 0 ==> r.graphemes@.len() == 0'], why='unicode-segmentation; only the empty string is used here')
+    b.assumed_fn('cluster.rs', 'new', within=GC, ensures=['r.graphemes@ == seq![grapheme]'], why='verified in unit expr against exactly this contract')
+    b.emit("}\nimpl<'a> Expression<'a> {")
+    EX = "^impl<'a> Expression<'a> \\{"
+    A = lambda name, ens, why: b.assumed_fn('expression.rs', name, within=EX, ensures=ens, why=why)
+    A('concatenate', [c[1] for c in E.CONCAT_CLAUSES], 'verified in unit expr against exactly this contract')
+    A('union', [c[1] for c in E.UNION_CLAUSES], 'verified in unit expr against exactly this contract')
+    A('new_literal', [c[1] for c in E.NEW_LITERAL_CLAUSES], 'verified in unit expr against exactly this contract')
+    A('repeat_zero_or_more_times', [], 'only reached for a cyclic automaton (dead for the acyclic precondition); `star` is uninterpreted')
+    SH = 2                                                  # the elimination part comes after the two loops of the first part
+    def shift(s): return re.sub(r'\bit([1-4])\b', lambda m: 'it%d' % (int(m.group(1)) + SH), s)
+    def shift_inv(inv): return [shift(i) if isinstance(i, str) else (i[0].replace('elim.', 'from.elim_').replace('@loop%s' % i[0][-1], '@loop%d' % (int(i[0][-1]) + SH)), i[1], shift(i[2])) for i in inv]
+    def ren_m(inv): return [i if isinstance(i, str) else (i[0].replace('matrix.', 'from.matrix_'), i[1], i[2]) for i in inv]
+    loops = {k: ren_m(v) for k, v in pm['loops'].items()}
+    for k, v in pe['loops'].items(): loops[k + SH] = shift_inv(v)
+    blocks = []
+    for bk in pm['blocks']:
+        blocks.append((bk[0], bk[1], bk[2], ('from.matrix_proof_steps', ['C01', 'C02', 'C16'])))
+    for bk in pe['blocks']:
+        anchor = bk[0] + SH if isinstance(bk[0], int) else bk[0]
+        blocks.append((anchor, bk[1], shift(bk[2]), ('from.elim_substitution_step', ['C01', 'C02', 'C16'])))
+    # between the parts: the matrices encode the automaton, hence (proved lemma) they meet the precondition of the elimination
+    blocks.append((1 + SH, 'loop_before', '        proof { lemma_encoded_system(a@, b@, dfa, state_count as int); }', ('from.matrices_meet_the_elimination_precondition', ['C01', 'C02', 'C16'])))
+    def pre(text, log, where):
+        text = D.desugar_enumerate(text, log, where)
+        return D.ndarray_index(text, ['a', 'b'], log, where)
+    b.verified_fn('expression.rs', 'from', within=EX, props=['C07'], fname='Expression::from', pre=pre,
+                  requires=['states_ok(dfa)', 'dfa_solved_by_rl(dfa, d_states(dfa).len() as int)', 'dfa_ranked(dfa, d_states(dfa).len() as int)'],
+                  clauses=[Clause('from.result_is_the_right_language_of_the_start_state', 'd_states(dfa).len() > 0 && rl(0) != ISet::<Word>::empty() ==> lang(r) == rl(0)', ['C01', 'C02', 'C16'])],
+                  loops=loops, blocks=blocks,
+                  extra_rules=[('R19', r'states\.iter\(\)\.position\(\|&it\| it == edge\.target\(\)\)', 'vx_position(&states, edge.target())', 'Iterator::position(closure) on the state list')])
+    b.emit('}\n} // mod code')
+    b.emit(E.TRUSTED_PRELUDE)
+    b.emit(E.eq_impl('Grapheme')); b.emit(E.eq_impl('Quantifier')); b.emit(E.eq_impl("Expression<'a>", "<'a>"))
+    b.emit('} // verus!')
+    b.emit(E.OUTSIDE)
+    b.trusted += bm.trusted + [x for x in be.trusted if x not in bm.trusted]
     return b
